@@ -37,6 +37,7 @@
 //! There are `N` virtual MPSC (multi-producer, single consumer) channels with unbounded capacity. However, if all
 //! buffers/channels are non-empty, than a global gate will be closed preventing new data from being written (the
 //! sender futures will be [pending](Poll::Pending)) until at least one channel is empty (and not closed).
+#[cfg(not(datafusion_verif))]
 use std::{
     collections::VecDeque,
     future::Future,
@@ -48,7 +49,22 @@ use std::{
     task::{Context, Poll, Waker},
 };
 
+#[cfg(not(datafusion_verif))]
 use parking_lot::Mutex;
+
+#[cfg(datafusion_verif)]
+use crate::verif_shims::{
+    Mutex,
+    atomic::{AtomicUsize, Ordering},
+};
+#[cfg(datafusion_verif)]
+use std::{
+    collections::VecDeque,
+    future::Future,
+    pin::Pin,
+    sync::Arc,
+    task::{Context, Poll, Waker},
+};
 
 /// Create `n` empty channels.
 pub fn channels<T>(
